@@ -213,6 +213,21 @@ def run(rep, rng, tier):
                 continue
             add('KRows %s %s %s %s' % (natlist(range(1, len(second) - 1)), q(0.0), qmat(np.array(s1, dtype=float).T), qmat(np.array(s2, dtype=float).T)),
                 '%s_response_spectra[rows, second batch with the same end periods]' % nm, dict(args, sub_periods=second[1:-1]), nz=bool(np.any(a != 0)))
+    # ---- period lists given as integers (Python ints / an integer array) with a leading zero: the rows of the non-zero
+    # periods are those of the same periods requested as floats without the zero
+    for k in range(4 * N):
+        a, _, _, xi = setup()
+        dt = rng.choice([0.25, 0.125, 0.05])
+        ints = sorted(rng.sample([1, 2, 3, 4, 5, 8, 10], 3))
+        plist = [0] + ints if k % 2 else np.array([0] + ints)
+        args = {'dt': dt, 'xi': xi, 'periods': [0] + ints, 'periods_given_as': 'list of ints' if k % 2 else 'integer array', 'sub_periods': [float(p) for p in ints], 'a': list(map(float, a))}
+        for fn, nm in ((sdof.pseudo_response_spectra, 'pseudo'), (sdof.true_response_spectra, 'true')):
+            s1, s2 = guarded(fn, a, dt, plist, xi), guarded(fn, a, dt, np.array(ints, dtype=float), xi)
+            if isinstance(s1, ImplError) or isinstance(s2, ImplError):
+                viol('%s_response_spectra[rows, integer periods]' % nm, args, s1 if isinstance(s1, ImplError) else s2)
+                continue
+            add('KRows %s %s %s %s' % (natlist([1, 2, 3]), q(0.0), qmat(np.array(s1, dtype=float).T), qmat(np.array(s2, dtype=float).T)),
+                '%s_response_spectra[rows, integer periods with a leading zero]' % nm, args, nz=bool(np.any(a != 0)))
     # ---- shift invariance of the spectra on a record longer than 2^15 samples whose strong motion comes late
     for k in range(1 * N):
         n = rng.randint(33500, 36000)
